@@ -73,6 +73,8 @@ Record ep := mkEp {
   now : N;                          (* virtual clock, ms *)
   (* Connection *)
   closed : bool;
+  rx_alive : bool;                  (* the IO_IN watch is still registered (an exception escaping
+                                       the receive callback removes it: the endpoint goes deaf) *)
   conn_tx : bytes;                  (* Connection.__tx_buf *)
   io_set : bool;                    (* __avail_tx_notls_id is not None *)
   pend_set : bool;                  (* __avail_tx_notls_pend is not None *)
@@ -105,14 +107,14 @@ Record ep := mkEp {
 }.
 
 #[export] Instance eta_ep : Settable _ := settable! mkEp
-  <cf; now; closed; conn_tx; io_set; pend_set; n_io; n_idle;
+  <cf; now; closed; rx_alive; conn_tx; io_set; pend_set; n_io; n_idle;
    state; in_conn; in_sess; in_term; conhead_this; conhead_peer; sessinit_this; sessinit_peer;
    rx_buf; msg_tx; keepalive_time; idle_time; ka_due; idle_due; seg_size;
    next_id; pend_start; pend_ack; tx_map; tx_tmp; tx_len; pq_set; n_pq; rx_tmp; rx_map;
    sent; wire; trace>.
 
 Definition init (c : cfg) : ep :=
-  mkEp c 0 false [] false false 0 0
+  mkEp c 0 false true [] false false 0 0
        ST_CONNECTING false false false None None None None
        [] [] 0 0 None None 0
        1 [] [] [] None 0 false 0 None []
@@ -509,8 +511,13 @@ Definition step (s : ep) (o : op) : ep :=
         if idle then s <| n_idle := pred (n_idle s) |> else s <| n_io := pred (n_io s) |>
     else s
   | ORx data =>
-    if is_nil data then s else escape (recv_raw data s)
-  | ORxEof => do_close s
+    if is_nil data || negb (rx_alive s) then s
+    else
+      match recv_raw data s with
+      | (s, None) => s
+      | (s, Some k) => emit (EExc k) (s <| rx_alive := false |>)
+      end
+  | ORxEof => if rx_alive s then do_close s else s
   | OPQ =>
     if (0 <? n_pq s)%nat then
       let '(s, keep) := process_queue s in
@@ -569,7 +576,7 @@ Definition opt_N (o : option N) : list N := match o with Some x => [1; x] | None
 
 (** Everything the harness compares after each operation. *)
 Definition render_state (s : ep) : list (list N) :=
-  [ [state s; bool_N (in_conn s); bool_N (in_sess s); bool_N (in_term s); bool_N (closed s)];
+  [ [state s; bool_N (in_conn s); bool_N (in_sess s); bool_N (in_term s); bool_N (closed s); bool_N (rx_alive s)];
     rx_buf s; msg_tx s; conn_tx s;
     [N.of_nat (n_io s); N.of_nat (n_idle s); N.of_nat (n_pq s)];
     [seg_size s; keepalive_time s];
